@@ -1,26 +1,19 @@
-//! Correspondence harness: runs the real signalo types (path dependencies on /repo) on generated
-//! cases and writes the inputs together with the implementation's observable results as Coq
-//! terms; coqc then evaluates model and spec on them (see /verif/DESIGN.md section 4).
-mod rat;
-mod util;
-mod dynsrc;
-mod dynpipe;
-mod tok;
-mod props;
-
+//! Shared command-line driver of every harness binary: generate or read spec lines, execute them on the
+//! real code, write shards of Coq terms plus meta.json.
 use std::collections::HashSet;
 use std::fs;
 use std::io::Write;
-use util::*;
+use crate::util::*;
+use crate::rat;
 
 const SHARD: usize = 400;
 
-fn main() {
+pub fn run(props: &[(&str, Prop)]) {
     let args: Vec<String> = std::env::args().collect();
     if args.len() < 5 { eprintln!("usage: harness gen <prop> <tier> <seed> <outdir> | harness exec <prop> <specfile> <outdir>"); std::process::exit(2); }
     quiet_panics();
     let prop = args[2].as_str();
-    let p = props::lookup(prop).unwrap_or_else(|| { eprintln!("unknown property {}", prop); std::process::exit(2) });
+    let p = match props.iter().find(|(id, _)| *id == prop) { Some((_, p)) => p, None => { eprintln!("property {} is not served by this binary", prop); std::process::exit(2) } };
     let (specs, outdir): (Vec<Spec>, &str) = match args[1].as_str() {
         "gen" => { let seed: u64 = args[4].parse().unwrap(); let mut rng = Rng(seed.wrapping_mul(0x2545F4914F6CDD1D) ^ 0xC0FFEE); ((p.generate)(args[3].as_str(), &mut rng), args[5].as_str()) }
         "exec" => (fs::read_to_string(&args[3]).unwrap().lines().filter(|l| !l.trim().is_empty() && !l.starts_with('#')).map(Spec::parse).collect(), args[4].as_str()),
